@@ -4,7 +4,7 @@ from pyvc.verify import Post, Case, Equiv, NativeFacts
 from contracts import common
 
 PROPERTY = 'C19'
-REF_MODULES = ['ref_cli']
+REF_MODULES = ['ref_cli', 'ref_err', 'ref_extra', 'ref_core']
 
 
 def config(cfg):
@@ -145,6 +145,9 @@ def contracts():
                                lambda f: guarded()))
             NativeFacts.run(self, v)
     cs.append(_Sites('C19.exec-sites', [], func='glom/cli.py'))
+    # "a GlomError yields exit status 1 with a message naming the error": printing the error renders its trace (contracts shared with C05)
+    from contracts import C05
+    cs += common.shared(C05, ['core._format_trace_value', 'core.format_target_spec_trace', 'core.GlomError.__str__'])
     return cs
 
 
